@@ -37,7 +37,7 @@ SCOPE = {'evals': 0, 'bad': []}
 def gates(tier):
     return {'sequence_steps': 60000, 'sequences': 20000, 'raising_steps': 8000, 'steps_using_remembered_expect': 3000,
             'process_state_checks': 1200, 'config_fingerprint_checks': 400, 'scope_taps': 5000,
-            'shared_instance_steps': 1500, 'negpow_steps': 200, 'own_text_checks': 300, 'soup_steps': 2500, 'registered_default_cases': 20, 'debug_log_checks': 5000}
+            'shared_instance_steps': 1500, 'negpow_steps': 200, 'own_text_checks': 300, 'soup_steps': 2500, 'registered_default_cases': 20, 'debug_log_checks': 5000, 'configured_grader_given_expect_text': 1500}
 
 
 # ----------------------------------------------------------------------------- specs
@@ -215,6 +215,37 @@ def run_sequences(ctx):
                             base_state = now
                 ctx.subspace('%s configured=%s debug=%s: event sequences of length %d over %d events' % (cname, configured, debug, length, len(events)),
                              n, True)
+
+
+# ----------------------------------------------------------------------------- configured answers: expect is ignored
+EXPECT_TEXTS = ['', ' ', '?', 'n/a', 'cat', 'see the solution', '[1,2,3]', '[1,2', 'a,,b', '(((', '1/0', 'x+', u'\u221e', '{1,2}', ';', ',',
+                '0', 'None', '[', 'x' * 300, '<b>answer</b>', '%s {0} {x}', '\n', '(1,2)', 'a,b;;c']
+
+
+def run_configured_ignores_expect(ctx):
+    """edX hands the problem's expect="..." text (often display text) to every call; a grader whose answers are configured grades as
+    if it had not been given, whatever that text is and whatever was handed on earlier calls."""
+    rng = ctx.rng
+    S = specs()
+    for cname, sp in sorted(S.items()):
+        for debug in (False, True):
+            ref = {}
+            for s in sp['inputs']:
+                out = lib.call(ctx, sp['make'](answers=sp['answers'], debug=debug), None, list(s) if isinstance(s, list) else s)
+                ref[repr(s)] = norm(out, debug)
+            g = sp['make'](answers=sp['answers'], debug=debug)
+            texts = list(EXPECT_TEXTS)
+            rng.shuffle(texts)
+            for e in texts:
+                for s in sp['inputs']:
+                    out = lib.call(ctx, g if rng.random() < 0.7 else sp['make'](answers=sp['answers'], debug=debug), e, list(s) if isinstance(s, list) else s)
+                    ctx.ev()
+                    ctx.count('configured_grader_given_expect_text')
+                    got = norm(out, debug)
+                    if got != ref[repr(s)]:
+                        ctx.violation('C11:configured_answers:%s:expect_text_changes_outcome' % cname,
+                                      'expect %r, input %r: %r; without expect: %r' % (e[:40], s, got, ref[repr(s)]),
+                                      {'class': cname, 'debug': debug, 'expect': e[:80], 'input': s})
 
 
 # ----------------------------------------------------------------------------- scope tap
@@ -556,6 +587,48 @@ def run_registered_defaults(ctx):
                 ctx.violation('C11:registered_defaults:persist_after_clear', 'default still in force: %r' % (out.brief(),), {'class': cls.__name__})
 
 
+def run_registered_shared_dict(ctx):
+    """One dictionary of course-wide defaults registered on several classes, then more defaults registered on one of them:
+    the other classes keep what was registered for them, and the author's dictionary is left as written."""
+    import mitxgraders as M
+    rng = ctx.rng
+    classes = [(M.StringGrader, {'answers': 'cat'}), (M.FormulaGrader, {'answers': 'x', 'variables': ['x']}),
+               (M.NumericalGrader, {'answers': '5'}), (M.SingleListGrader, {'answers': ['a', 'b'], 'subgrader': M.StringGrader()}),
+               (M.IntervalGrader, {'answers': '[1,2]'})]
+    for rep in range(ctx.pick(6, 40)):
+        picked = rng.sample(classes, rng.randint(2, 4))
+        # (sibling classes only: defaults registered for a class also reach its subclasses by design)
+        if any(issubclass(a[0], b[0]) for a in picked for b in picked if a is not b):
+            continue
+        shared = {'wrong_msg': 'Try again'}
+        later = rng.choice([{'wrong_msg': 'Other'}, {'debug': True}, {'wrong_msg': 'Other', 'debug': True}])
+        k = rng.randrange(len(picked))
+        try:
+            for cls, _ in picked:
+                cls.register_defaults(shared)
+            picked[k][0].register_defaults(dict(later))
+            ctx.count('registered_default_cases')
+            ctx.count('shared_defaults_dict_cases')
+            ctx.ev()
+            wit = {'registered_on': [c.__name__ for c, _ in picked], 'shared': {'wrong_msg': 'Try again'}, 'then_on': picked[k][0].__name__, 'later': later}
+            if shared != {'wrong_msg': 'Try again'}:
+                ctx.violation('C11:registered_defaults:author_dict_modified', 'the registered dictionary now reads %r' % (shared,), wit)
+            for j, (cls, cfg) in enumerate(picked):
+                try:
+                    g = cls(**cfg)
+                except Exception as exc:  # noqa
+                    ctx.violation('C11:registered_defaults:leak_between_classes', 'constructing %s raised %r' % (cls.__name__, exc), wit)
+                    continue
+                want_msg = later.get('wrong_msg', 'Try again') if j == k else 'Try again'
+                want_debug = later.get('debug', False) if j == k else False
+                if g.config['wrong_msg'] != want_msg or g.config['debug'] != want_debug:
+                    ctx.violation('C11:registered_defaults:leak_between_classes',
+                                  '%s has wrong_msg=%r debug=%r, registered for it: %r / %r' % (cls.__name__, g.config['wrong_msg'], g.config['debug'], want_msg, want_debug), wit)
+        finally:
+            for cls, _ in picked:
+                cls.clear_registered_defaults()
+
+
 def run_soup(ctx):
     """
     Mixed histories without a script: several graders of any kind (the configuration grammar of gen_graders, incl.
@@ -624,11 +697,14 @@ def run_soup(ctx):
 def run(ctx):
     install_scope_tap()
     run_sequences(ctx)
+    if ctx.shard % 4 == 1:
+        run_configured_ignores_expect(ctx)
     run_configs(ctx)
     run_shared(ctx)
     run_soup(ctx)
     if ctx.shard % 4 == 0:
         run_registered_defaults(ctx)
+        run_registered_shared_dict(ctx)
     ctx.count('scope_taps', SCOPE['evals'] // 3)
     for expr, which in SCOPE['bad'][:3]:
         ctx.violation('C11:scope_modified:' + '+'.join(which), 'evaluating %r changed the %s handed to the evaluator' % (expr[:80], which),
